@@ -203,6 +203,15 @@ func (ex *Exec) specCtx(st *State, old *State, fr *Frame) *SpecCtx {
 		for n, v := range ex.ghostVals {
 			c.names[n] = v
 		}
+		// captured variables of a closure under contract are cells: the name denotes the pointer to the cell
+		// (`x.f` for a captured struct, `*x` for a captured scalar; inside old(..) the cell's entry content)
+		for _, fv := range fr.fn.FreeVars {
+			if rv, ok := st.regs[fv]; ok {
+				if _, exists := c.names[fv.Name()]; !exists {
+					c.names[fv.Name()] = &SV{V: rv, T: fv.Type()}
+				}
+			}
+		}
 	}
 	ex.nfresh++
 	return c
@@ -1198,9 +1207,28 @@ func (ex *Exec) addSpecAxioms(st *State, fr *Frame) {
 
 // ghostAssign executes  lhs := rhs  on ghost state (ghost fields only).
 func (ex *Exec) ghostAssign(st *State, c *SpecCtx, ga *GhostAssign) {
+	if id, isId := ga.LHS.(*ast.Ident); isId {
+		// a ghost global
+		gg := c.findGhostGlobal(id.Name)
+		if gg == nil {
+			c.fail("ghostexit: %s is not a ghost global", id.Name)
+		}
+		rhs := c.eval(ga.RHS)
+		t := c.ghostGlobalType(gg)
+		var v *Val
+		if rhs.Const != nil {
+			v = scalar(c.term(rhs, ex.env.scalarSort(t)))
+		} else {
+			v = rhs.V
+		}
+		ex.flatten(t, v, "", func(l Leaf, tm *Term) {
+			st.heap[ghostGlobalKey(gg)+" "+l.Path] = tm
+		})
+		return
+	}
 	sel, ok := ga.LHS.(*ast.SelectorExpr)
 	if !ok {
-		c.fail("ghostexit: left side must be a ghost field x.f (%s)", ga.Src)
+		c.fail("ghostexit: left side must be a ghost field x.f or a ghost global (%s)", ga.Src)
 	}
 	base := c.eval(sel.X)
 	bt := ex.env.resolve(base.T)
